@@ -175,5 +175,6 @@ pub fn default_ent(len: u64) -> EntSpec {
         hdrs: vec![("content-type".into(), b"application/x-test".to_vec())],
         plan: ChunkPlan::default(),
         fault: None,
+        slow_calls: false,
     }
 }
